@@ -1,7 +1,8 @@
 package main
 
 // C17, memory-mapped stores (Go-side monitors only): an allocator on a memory-mapped FILE, closed, the file opened
-// again through a NARROWER window (fewer segments) and closed, then opened in full (by its size, and with -1):
+// again through a NARROWER window (fewer segments) and closed, once more narrow and widened with Grow to the file's
+// size and closed, then opened in full (by its size, and with -1):
 // the set of allocated blocks and the user data of every segment must be what they were — the allocation state
 // lives in the bytes of the file, whatever window somebody looked through in between.
 
@@ -74,10 +75,18 @@ func blkMMScenario(ctx *Ctx, bs, segs, narrowSegs, nalloc int, freeEvery int) {
 				bad(fmt.Sprintf("the narrow window shows %d blocks, the full store has %d", bn.Count(), count))
 			}
 			bn.Close()
-		} else {
+			} else {
 			mn.Close()
-		}
-	}
+			}
+			}
+			// … and a narrow window that is WIDENED again with Grow while the file is longer than the window: the bytes the
+			// wider window shows are the file's, not fresh ones (checked together with the two reopenings below)
+			if mg, err := files.NewMMFile(fname, narrow); err == nil {
+			if gerr := mg.Grow(full); gerr != nil {
+			bad(fmt.Sprintf("Grow from the narrow window (%d) to the file's size (%d) failed: %v", narrow, full, gerr))
+			}
+			mg.Close()
+			}
 	// the full file again: by explicit size and by its own size
 	for _, sz := range []int64{full, -1} {
 		mf, err := files.NewMMFile(fname, sz)
